@@ -51,8 +51,12 @@ impl InfoReplySubmessage {
 
 impl Submessage for InfoReplySubmessage {
     fn write_submessage_header_into_bytes(&self, octets_to_next_header: u16, buf: &mut dyn Write) {
-        SubmessageHeaderWrite::new(SubmessageKind::INFO_REPLY, &[], octets_to_next_header)
-            .write_into_bytes(buf);
+        SubmessageHeaderWrite::new(
+            SubmessageKind::INFO_REPLY,
+            &[self.multicast_flag],
+            octets_to_next_header,
+        )
+        .write_into_bytes(buf);
     }
 
     fn write_submessage_elements_into_bytes(&self, buf: &mut dyn Write) {
